@@ -178,9 +178,10 @@ static std::string doIp(const std::string &bytes) {
     if (bytes.find('\0') != std::string::npos)
         return "reject:nul";
     Ip::Address a;
-    a.fromHost(bytes.c_str());
+    if (!a.fromHost(bytes.c_str()))
+        return "none";
     if (a.isAnyAddr())
-        return a.isNoAddr() ? "none" : "any";
+        return "any";
     char buf[MAX_IPSTRLEN];
     const auto n = a.toHostStr(buf, sizeof(buf));
     return "ip=" + hex(buf, n);
